@@ -7,6 +7,8 @@ EACCES / ENOSPC / EIO / ENOENT (writes: with and without a short prefix written)
 sequences (thorough).  After every execution each target holds the complete old or the complete new
 content (or, with backups, is absent while .orig holds the old content), nothing else is modified,
 and a run that reports success has really formatted everything.
+Conformance: every scenario is also run fault-free as a real subprocess under strace; the mutating system
+calls on the scenario directory must be exactly the operations the harness numbered (vf/strace_ops.py).
 """
 from __future__ import annotations
 
@@ -243,7 +245,78 @@ def spaces(tier):
     return [sp]
 
 
+# ------------------------------------------------------------------------------ conformance of the operation model
+def _canon_ops(ops, written, sc):
+    """Rename run-specific temporary names (anything that is not a scenario file, target or backup) to tmp#1, tmp#2, ..."""
+    static = set(sc["files"]) | set(sc["targets"]) | {p + ".orig" for p in sc["targets"]} | set(sc.get("links", {}))
+    for p in list(static):
+        while "/" in p:
+            p = p.rsplit("/", 1)[0]
+            static.add(p)
+    names = {}
+
+    def c(p):
+        if p is None or p in static:
+            return p
+        return names.setdefault(p, "tmp#%d" % (len(names) + 1))
+
+    return [tuple([o[0]] + [c(x) for x in o[1:]]) for o in ops], {c(k): v for k, v in written.items()}
+
+
+def model_ops(log):
+    """The same vocabulary from the harness's own operation log (fault-free run)."""
+    ops, written = [], {}
+    for e in log:
+        kind = e[1]
+        if kind == "open-w":
+            ops.append(("open-w", e[2]))
+        elif kind == "write":
+            written[e[2]] = written.get(e[2], 0) + int(e[3])
+        elif kind == "rename":
+            ops.append(("rename", e[2], e[3]))
+        elif kind in ("remove", "mkdir", "rmdir", "truncate", "symlink", "link"):
+            ops.append((kind, e[2]))
+    return ops, written
+
+
+def conformance(sp):
+    """Every scenario's fault-free run once more as a real subprocess under strace: the mutating system calls on the scenario
+    directory must be exactly the operations the harness numbered (same order, same paths, same byte counts), i.e. no file
+    operation of the CLI escapes the injector."""
+    from vf import strace_ops
+    import tempfile
+    import shutil
+    res = {"strace": "unavailable", "scenarios_compared": 0, "syscalls_matched": 0}
+    errors = []
+    if not strace_ops.available():
+        return res, errors
+    res["strace"] = "used"
+    for name, sc in SCEN.items():
+        if sc.get("patch"):
+            continue  # needs an in-process patch of the formatter; its file operations are those of i-3files
+        d = os.path.realpath(tempfile.mkdtemp(prefix="st-", dir=core.scratch_root()))
+        try:
+            make_setup(sc)(d)
+            code = "import sys; sys.path.insert(0, %r); from flowmark.cli import main; sys.exit(main(%r))" % (os.path.join(core.REPO, "src"), list(sc["argv"]))
+            out = strace_ops.run(["/venv/bin/python", "-c", code], d, stdin=sc.get("stdin", ""))
+        finally:
+            shutil.rmtree(d, ignore_errors=True)
+        if out is None:
+            res["strace"] = "failed"
+            break
+        sys_ops, sys_written = _canon_ops(out[0], out[1], sc)
+        mod_ops, mod_written = _canon_ops(*model_ops(sp.dry[name][1]), sc)
+        res["scenarios_compared"] += 1
+        if sys_ops != mod_ops or sys_written != mod_written:
+            errors.append(f"operation model does not match the system calls of scenario {name}: syscalls={sys_ops} bytes={sys_written} "
+                          f"harness={mod_ops} bytes={mod_written}")
+        else:
+            res["syscalls_matched"] += len(sys_ops) + len(sys_written)
+    return res, errors
+
+
 def extra(reports, tier):
     sp = reports[0].space
+    conf, errors = conformance(sp)
     return {"scenarios": len(SCEN), "operations_per_scenario": {n: len(sp.dry[n][1]) for n in SCEN},
-            "operation_log_sample": sp.dry["i-backup"][1]}
+            "operation_log_sample": sp.dry["i-backup"][1], "syscall_conformance": conf, "harness_errors": errors}
